@@ -2,10 +2,12 @@ pub mod c05;
 pub mod c07;
 pub mod c09;
 pub mod c10;
+pub mod c11;
 pub mod c12;
 pub mod c13;
 pub mod c14;
 pub mod c15;
+pub mod c16;
 pub mod screen_props;
 
 use crate::report::Report;
@@ -30,10 +32,12 @@ pub fn run(id: &str, cfg: &RunCfg) -> Option<PropResult> {
         "C07" => Some(c07::run(cfg)),
         "C09" => Some(c09::run(cfg)),
         "C10" => Some(c10::run(cfg)),
+        "C11" => Some(c11::run(cfg)),
         "C12" => Some(c12::run(cfg)),
         "C13" => Some(c13::run(cfg)),
         "C14" => Some(c14::run(cfg)),
         "C15" => Some(c15::run(cfg)),
+        "C16" => Some(c16::run(cfg)),
         _ => None,
     }
 }
